@@ -454,3 +454,8 @@ def generator_function_and_set_update(a: int, b: int):
     d = dict.fromkeys(["x", "y"], [])
     d["x"].append(a)                       # the value object is shared between the keys
     return (len(s), (0, a) in s, (9, b) in s, (2, 2 + a) in s, (3, 3 + a) in s, d["y"], list(pairs(1, 4)), sum(x for x, _ in pairs(0, 7)))
+
+
+def sorted_by_symbolic_key(a: int, b: int, c: int):
+    items = [("x", a), ("y", b), ("z", c), ("w", a)]
+    return [n for n, _ in sorted(items, key=lambda t: t[1])]
